@@ -801,3 +801,50 @@ def justify_prefix_returns(rc, fi, ev, returns, env, loop, post) -> list:
             continue
         out.append((g, v))
     return out
+
+
+ACCOUNTED_RET: Dict[str, list] = {}      # qualname -> predicates over ast.Return nodes after the main loop that a rule has judged by value
+
+
+def account_returns(fi, predicate=None):
+    """A rule declares that it has judged (by value) the returns after the main loop of fi that satisfy `predicate`."""
+    ACCOUNTED_RET.setdefault(fi.qualname, []).append(predicate or (lambda r: True))
+
+
+def _plain_return(e, fi, lk) -> bool:
+    """A return expression that only hands over what the function built: names, tuples of them, np.array / np.asarray of
+    them, calls of package functions on them.  Anything that transforms the result on its way out (a slice, a reversal, a
+    sort, arithmetic, a comprehension) is not plain."""
+    if e is None or isinstance(e, (ast.Name, ast.Constant)):
+        return True
+    if isinstance(e, (ast.Tuple, ast.List)):
+        return all(_plain_return(x, fi, lk) for x in e.elts)
+    if isinstance(e, ast.Call):
+        f = norm_text(e.func)
+        if f in ("np.array", "np.asarray", "numpy.array", "numpy.asarray"):
+            return len(e.args) == 1 and _plain_return(e.args[0], fi, lk) and all(k.arg == "dtype" for k in e.keywords)
+        try:
+            r = lk.resolve(fi.module, e.func)
+        except Exception:
+            return False
+        if r.kind == "func":
+            return all(not isinstance(a, ast.Starred) and _plain_return(a, fi, lk) for a in e.args) and all(k.arg is not None and _plain_return(k.value, fi, lk) for k in e.keywords)
+    return False
+
+
+def audit_return_forms(ctx):
+    """The loop readers identify the list a pass builds and decide how it is built; what the function then does with it on
+    the way out is a separate fact.  Every `return` after the main loop must either hand the result over unchanged (a plain
+    form) or have been judged by value by a rule (`account_returns`); a return that transforms the result and that no rule
+    looked at is a shape that was not read - exit 2."""
+    res = ctx.result
+    lk = ctx.linker
+    for q, (fi, loop) in sorted(READ_LOOPS.items()):
+        end = getattr(loop, "end_lineno", None) or getattr(loop, "lineno", 0)
+        preds = ACCOUNTED_RET.get(q, [])
+        for r in ast.walk(fi.node):
+            if not isinstance(r, ast.Return) or getattr(r, "lineno", 0) <= end:
+                continue
+            if any(p(r) for p in preds) or _plain_return(r.value, fi, lk):
+                continue
+            res.error(f"{q}: the return `{ast.unparse(r)[:70]}` (line {r.lineno}) after the main loop transforms the result and is not judged by any rule of this property - shape not recognised")
